@@ -222,7 +222,7 @@ Fixpoint get (d : nat) (c : N) (bs : list N) : pres tv :=
                 if neg32 n then PErr
                 else if n =? 0 then POk (WMap kc vc []) r1
                 else if negb (known_code kc && known_code vc) then PErr
-                else if len r1 <? n * (min_size kc + min_size vc) then PErr
+                else if short r1 (n * (min_size kc + min_size vc)) then PErr
                 else
                   match get_entries (get d') (N.to_nat n) kc vc r1 with
                   | POk es r' => POk (WMap kc vc es) r'
@@ -241,7 +241,7 @@ Fixpoint get (d : nat) (c : N) (bs : list N) : pres tv :=
                 if neg32 n then PErr
                 else if n =? 0 then POk (WList (c =? cSET) ec []) r1
                 else if negb (known_code ec) then PErr
-                else if len r1 <? n * min_size ec then PErr
+                else if short r1 (n * min_size ec) then PErr
                 else
                   match get_elems (get d') (N.to_nat n) ec r1 with
                   | POk es r' => POk (WList (c =? cSET) ec es) r'
